@@ -79,6 +79,9 @@ def run(ctx):
     # dumping compares versions (the 3.0 gates): comparing must not change a Version (shared with C18.D2)
     from . import c18
     c18.version_immutable(ctx, 'C07.D1')
+    c18.nearest_pure(ctx, 'C07.D1')
+    for modname in ('zincdumper', 'jsondumper'):
+        writer_memo(ctx, 'C07.D1', modname)
     # every parsed XStr can be dumped again: decoding and encoding agree on the encoding name (shared with C06.D2)
     _zinc.xstr_codec(ctx, 'C07.D3')
     for modname in ('zincdumper', 'jsondumper'):
@@ -195,6 +198,75 @@ def _not_memoised(ctx, fn, F):
                               'dump of a grid depends on what was dumped earlier in the process',
                               '%s is memoised on its argument, but equal values of different kinds have different texts'
                               % fn.name, file=F, line=fn.lineno, engine='E7')
+
+
+def writer_memo(ctx, rule, modname):
+    """A writer keeps no table of texts keyed by the value: Python equality is coarser than "the same Haystack value"
+    (aware date-times are equal by instant whatever their zone, 0.0 == -0.0, 1 == 1.0 == True, equal Quantities of int and
+    float), so a memo keyed by the value hands the text of the first of two equal values to the second.  Decides: no
+    function of the writer module stores into a module-level container under a key computed from the value it writes."""
+    m = ctx.model
+    try:
+        mod = m.mod(modname)
+    except AnalysisError as e:
+        ctx.error(rule, str(e))
+        return
+    F = 'hszinc/%s.py' % modname
+    containers = {}
+    for st in mod.tree.body:
+        if isinstance(st, ast.Assign) and len(st.targets) == 1 and isinstance(st.targets[0], ast.Name):
+            v = st.value
+            if isinstance(v, (ast.Dict, ast.List, ast.Set)) or (isinstance(v, ast.Call) and norm(v.func).split('.')[-1] in (
+                    'dict', 'list', 'set', 'OrderedDict', 'defaultdict', 'WeakValueDictionary', 'WeakKeyDictionary')):
+                containers[st.targets[0].id] = st
+    n_fn = 0
+    found = False
+    for fn in [n for n in ast.walk(mod.tree) if isinstance(n, ast.FunctionDef)]:
+        n_fn += 1
+        params = [a.arg for a in fn.args.args]
+        locals_ = {n.id for n in walk_no_nested(fn) if isinstance(n, ast.Name) and isinstance(n.ctx, ast.Store)}
+        for n in walk_no_nested(fn):
+            key = None
+            cname = None
+            if isinstance(n, ast.Assign):
+                for t in n.targets:
+                    if isinstance(t, ast.Subscript) and isinstance(t.value, ast.Name) and t.value.id in containers \
+                            and t.value.id not in locals_ and t.value.id not in params:
+                        key, cname = t.slice, t.value.id
+            elif isinstance(n, ast.Call) and isinstance(n.func, ast.Attribute) and n.func.attr in ('setdefault', '__setitem__') \
+                    and isinstance(n.func.value, ast.Name) and n.func.value.id in containers and n.args \
+                    and n.func.value.id not in locals_ and n.func.value.id not in params:
+                key, cname = n.args[0], n.func.value.id
+            if key is None:
+                continue
+            found = True
+            # resolve the key through single-assignment locals
+            names = {x.id for x in ast.walk(key) if isinstance(x, ast.Name)}
+            for _ in range(3):
+                for st in walk_no_nested(fn):
+                    if isinstance(st, ast.Assign) and len(st.targets) == 1 and isinstance(st.targets[0], ast.Name) \
+                            and st.targets[0].id in names and st.targets[0].id not in params:
+                        names |= {x.id for x in ast.walk(st.value) if isinstance(x, ast.Name)}
+            value_params = [p_ for p_ in params if p_ in names and p_ not in ('version', 'mode', 'charset', 'self', 'cls')]
+            if value_params:
+                vp = value_params[0]
+                if 'date' in fn.name or 'time' in fn.name:
+                    w = ('one instant held in two zones, e.g. 2021-06-01T12:00:00+02:00 Berlin and 2021-06-01T20:00:00+10:00 '
+                         'Brisbane, in one grid or in two dumps of one process: aware date-times are equal (and hash alike) by '
+                         'instant, so the second cell is written with the wall clock, offset and zone name of the first')
+                else:
+                    w = ('0.0 followed by -0.0 (equal, same hash): the second is written "0"; the same for one instant held in '
+                         'two zones (aware date-times are equal by instant), Quantity(1, "m") after Quantity(1.0, "m"), ... -- the '
+                         'text of the first of two equal values is handed to the second')
+                ctx.violation(rule, '%s::%s' % (F, fn.name), norm(n), w,
+                              '%s keeps the module-level table %s keyed by a value computed from its argument `%s` (`%s`): '
+                              'equal values share one entry although their texts differ'
+                              % (fn.name, cname, vp, norm(key)[:60]), file=F, line=n.lineno, engine='E7')
+            else:
+                ctx.error(rule, '%s stores into the module-level container %s under `%s`: not decided' % (fn.name, cname, norm(key)[:60]))
+    if not found:
+        ctx.ob(rule, 'no function of %s stores into a module-level container (%d functions, %d containers): no text is '
+                     'remembered from one value to the next' % (modname, n_fn, len(containers)), True, F)
 
 
 def _fresh_names(fn):
